@@ -2,8 +2,12 @@ package worlds
 
 import (
 	"bytes"
+	"context"
 	"fmt"
 	"time"
+
+	"mosn.io/mosn/pkg/metrics"
+	"mosn.io/mosn/pkg/upstream/cluster"
 
 	"verif/sim"
 )
@@ -50,6 +54,10 @@ type TCP struct {
 	upStall  []time.Duration
 	finished bool
 	lastAt   time.Duration
+	Prop     string
+	hostMode map[string]int // C10 arm: 0 accept, 1 refuse, 2 black-hole (connect timeout)
+	maxLive  int            // most upstream connections open at one quiescent point
+	hungUp   bool           // C10 arm: the clients that were still connected have been told to leave
 }
 
 type tcpChunk struct {
@@ -57,8 +65,8 @@ type tcpChunk struct {
 	data []byte
 }
 
-func NewTCP(s *sim.Sim, p ProxyParams) *TCP {
-	return &TCP{S: s, N: sim.NewNet(s), P: p, Stats: map[string]int{}}
+func NewTCP(s *sim.Sim, p ProxyParams, prop string) *TCP {
+	return &TCP{S: s, N: sim.NewNet(s), P: p, Stats: map[string]int{}, Prop: prop, hostMode: map[string]int{}}
 }
 
 func (w *TCP) drawChunks(ch *sim.Choices, tag string, base time.Duration) []tcpChunk {
@@ -94,6 +102,22 @@ func (w *TCP) Setup() error {
 		}},
 		"cluster_manager": J{"clusters": []J{{"name": "c0", "type": "SIMPLE", "lb_type": "LB_ROUNDROBIN", "hosts": hosts}}},
 	}
+	if w.Prop == "C10" {
+		// the connections resource of the cluster's circuit breaker, connect failures and connect timeouts
+		c0 := cfg["cluster_manager"].(J)["clusters"].([]J)[0]
+		c0["connect_timeout"] = "1s"
+		if p.MaxConns > 0 {
+			c0["circuit_breakers"] = []J{{"max_connections": p.MaxConns}}
+		}
+		if p.Faults {
+			for i := 0; i < p.NHosts; i++ {
+				if ch.Chance("params", "tcphostmode", 1, 3) {
+					w.hostMode[hostAddr(i)] = 1 + ch.Pick("params", "tcphostmodekind", 2)
+				}
+			}
+		}
+		s.Quiesce = append(s.Quiesce, w.quiescentC10)
+	}
 	if _, err := StartMosn(mustJSON(cfg)); err != nil {
 		return err
 	}
@@ -111,6 +135,12 @@ func (w *TCP) Setup() error {
 		w.upStall = append(w.upStall, pickFrom(ch, "work", "tcpupstall", []time.Duration{0, 0, 20 * time.Millisecond, 150 * time.Millisecond, 600 * time.Millisecond}))
 	}
 	w.N.OnDial = func(addr string) (sim.DialDecision, sim.Peer, string) {
+		switch w.hostMode[addr] {
+		case 1:
+			return sim.DialRefuse, nil, ""
+		case 2:
+			return sim.DialBlackhole, nil, ""
+		}
 		k := len(w.ups)
 		u := &tcpSide{name: fmt.Sprintf("up%d", k), s: s}
 		w.ups = append(w.ups, u)
@@ -231,9 +261,140 @@ func (w *TCP) maybeFinal() {
 		s.After(time.Second, "tcpfinal:wait", w.maybeFinal)
 		return
 	}
-	w.check()
+	if w.Prop == "C10" {
+		if !w.hungUp {
+			// every client that is still connected leaves now; the idle state is judged three seconds later
+			w.hungUp = true
+			for _, cl := range w.clients {
+				if cl.conn != nil && cl.conn.Open() {
+					if s.Ch.Bool("work", "tcpleaverst") {
+						cl.rst = true
+						cl.conn.PeerReset()
+					} else {
+						cl.conn.PeerClose()
+					}
+				}
+			}
+			w.lastAt = s.Now()
+			s.After(time.Second, "tcpfinal:wait", w.maybeFinal)
+			return
+		}
+		w.checkC10Idle()
+	} else {
+		w.check()
+	}
+	if w.N.DialsRefused > 0 {
+		s.Faults["connect_refused"] += w.N.DialsRefused
+	}
+	if w.N.DialsBlackholed > 0 {
+		s.Faults["connect_blackhole"] += w.N.DialsBlackholed
+	}
 	CheckRecoveredPanics(w.S, w.Stats)
 	w.finished = true
+}
+
+// ---- C10 on the tcp_proxy path: the cluster's connections resource and the connection gauges ----
+
+func (w *TCP) c10Counters() (res int64, max uint64, gauges map[string]int64) {
+	gauges = map[string]int64{}
+	snap := cluster.GetClusterMngAdapterInstance().ClusterManager.GetClusterSnapshot(context.Background(), "c0")
+	if snap == nil {
+		return 0, 0, gauges
+	}
+	r := snap.ClusterInfo().ResourceManager().Connections()
+	res, max = r.Cur(), r.Max()
+	gauges["listener.connection_active"] = metrics.NewListenerStats("ltcp").Counter(metrics.DownstreamConnectionActive).Count()
+	gauges["cluster.connection_active"] = metrics.NewClusterStats("c0").Counter(metrics.UpstreamConnectionActive).Count()
+	for i := 0; i < w.P.NHosts; i++ {
+		gauges["host.connection_active:"+hostAddr(i)] = metrics.NewHostStats("c0", hostAddr(i)).Counter(metrics.UpstreamConnectionActive).Count()
+	}
+	return
+}
+
+func (w *TCP) quiescentC10() {
+	s := w.S
+	res, _, gauges := w.c10Counters()
+	if res < 0 {
+		s.Violate("C10", "resource_negative:connections", "breaker resource connections = %d", res)
+	}
+	for name, v := range gauges {
+		if v < 0 {
+			s.Violate("C10", "gauge_negative:"+name, "%s = %d", name, v)
+		}
+	}
+	live := 0
+	for _, c := range w.N.Conns {
+		if c.Role == "up" && c.Open() {
+			live++
+		}
+	}
+	if live > w.maxLive {
+		w.maxLive = live
+	}
+}
+
+func (w *TCP) checkC10Idle() {
+	s := w.S
+	res, _, gauges := w.c10Counters()
+	liveUp, liveDown := 0, 0
+	for _, c := range w.N.Conns {
+		if c.LiveForMosn() {
+			if c.Role == "up" {
+				liveUp++
+			} else {
+				liveDown++
+			}
+		}
+	}
+	w.Stats["tcp_c10_idle_checks"]++
+	if res != 0 {
+		s.Violate("C10", "resource_not_zero_at_idle:connections", "breaker resource connections = %d at idle (every client has left; the network still has %d upstream connection(s) open; max_connections %d)", res, liveUp, w.P.MaxConns)
+	}
+	for name, v := range gauges {
+		want := int64(0)
+		if name == "listener.connection_active" {
+			want = int64(liveDown)
+		} else if name == "cluster.connection_active" {
+			want = int64(liveUp)
+		} else if liveUp > 0 {
+			continue
+		}
+		if v != want {
+			s.Violate("C10", "gauge:"+name, "%s = %d at idle, the network has %d such connection(s)", name, v, want)
+		}
+	}
+	// the limit trips at its threshold, and only there
+	k := w.P.MaxConns
+	if k == 0 {
+		return
+	}
+	if w.maxLive > k {
+		s.Violate("C10", "limit_does_not_trip_at_threshold", "max_connections=%d, but %d upstream connections of the tcp proxy were open at the same quiescent point", k, w.maxLive)
+	}
+	if w.N.DialsRefused+w.N.DialsBlackholed > 0 {
+		return // a client without an upstream connection may owe that to a failed connect
+	}
+	// (every successful dial is one admitted client connection: a legitimate refusal needs k of them)
+	accepted, refused := len(w.ups), 0
+	for _, cl := range w.clients {
+		if cl.conn == nil {
+			continue
+		}
+		tag := []byte("[" + cl.name + "#")
+		got := false
+		for _, u := range w.ups {
+			if bytes.Contains(u.got, tag) {
+				got = true
+			}
+		}
+		if !got && cl.sawClose && !cl.rst && !(cl.finAfter && cl.done) && len(cl.got) == 0 {
+			refused++ // MOSN may have hung up on it without ever connecting it to a host
+		}
+	}
+	w.Stats["tcp_c10_maybe_refused"] += refused
+	if refused > 0 && accepted < k {
+		s.Violate("C10", "limit_trips_below_threshold", "max_connections=%d: %d client connection(s) were turned away although only %d upstream connection(s) were ever opened", k, refused, accepted)
+	}
 }
 
 func (w *TCP) Done() bool       { return w.finished }
